@@ -593,9 +593,11 @@ def op_hr(res, choice, scale):
     back = _obs(lambda: cu.unit_registry_from_human_readable(hr))
     res.evaluations += 1
     if _isexc(back):
-        bad = sorted(str(v[1]) for v in hr.values() if not str(v[1]).isascii())
+        # which entry is it?  (diagnosis only: each entry alone inside the human-readable SI registry)
+        si_hr = cu.unit_registry_to_human_readable(cu.SI_base_registry)
+        bad = [str(hr[d][1]) for d in A.DIMS if d in hr and _isexc(_obs(lambda: cu.unit_registry_from_human_readable(dict(si_hr, **{d: hr[d]}))))]
         res.outcomes["hr-from-RAISED"] += 1
-        res.violation("C09|unit_registry_from_human_readable|round-trip|raises-on-own-output" + ("|non-ascii-symbol" if bad else ""),
+        res.violation("C09|unit_registry_from_human_readable|round-trip|raises-on-own-output|symbol=%s" % (bad[0] if bad else "whole-registry"),
                       "unit_registry_from_human_readable(unit_registry_to_human_readable(%s x %s)) raised %s; human-readable form %r"
                       % (scale, case["registry"], back, hr), case, back, "the registry")
         return
